@@ -795,6 +795,15 @@ def run(prop, seed, budget, ctx):
         return {"evaluations": len(cases) + vn, "distinct_nontrivial": len(distinct), "rule": RULES[prop] + "; plus dataclasses with validators (raise / yield, field, discard) "
                 "deserialized under a dynamic aliaser: every location is the aliased path", "samples": samples,
                 "histograms": dict(hist), "in_scope": in_scope, "correspondence": {"compared_with_model": k_checked, "disagreements": k_bad}, "failures": failures}
+    if prop == "C01":
+        import agg_oracle
+        af, an, ad, ah = agg_oracle.run_part(seed, budget)
+        failures += af; distinct |= ad
+        for k_, v_ in ah.items(): hist[k_] += v_
+        for f in af: hist["P:" + f["why"][0].split(":")[0]] += 1
+        return {"evaluations": len(cases) + an, "distinct_nontrivial": len(distinct), "rule": RULES[prop] + "; plus classes with pattern / additional-properties / flattened fields "
+                "(overlapping patterns, declared fields matching a pattern, flattened keys matching a pattern) against a reference attribution of the keys", "samples": samples,
+                "histograms": dict(hist), "in_scope": in_scope, "correspondence": {"compared_with_model": k_checked, "disagreements": k_bad}, "failures": failures}
     if prop == "C08":
         sf, sn, sd = ser_part(seed, budget)
         failures += sf; hist["serialization-cases"] = sn
@@ -819,6 +828,8 @@ def replay(prop, case, ctx):
     if case.get("part") == "deserialize" and "validators" in case:
         import engine_validate
         return engine_validate.replay(prop, case, ctx)
+    if case.get("part") == "aggregate-oracle":
+        return {k: case[k] for k in ("src", "py", "datum", "additional_properties", "why", "info")}
     if case.get("part") == "deser-pass-through":
         return {k: case[k] for k in ("py", "named", "coerce", "plain_datum", "datum_with_instances", "why", "info")}
     mod = build_module("\n".join(HEADER + case["src"]), "replay"); ns = dict(vars(mod))
